@@ -186,6 +186,9 @@ def run(ctx):
     r.floor('E1-panic', 'panic_sites', r.counts.get('panic_sites', 0), 150)
     check_action_tables(ctx)
     check_nonempty_results(ctx)
+    # Subscription::tick panics on a publishing interval <= 0: the value installed must be the revised one (rule shared with C23)
+    from .C23 import installed_values
+    installed_values(ctx)
     r.floor('E2-nonempty-result', 'nonempty_result_sites', r.counts.get('nonempty_result_sites', 0), 1)
     # the dispositions of the event-filter evaluation sites rest on these two gates (shared with C39)
     validation_gate(ctx)
